@@ -85,6 +85,10 @@ def world():
         def __eq__(self, o): return isinstance(o, W) and o.v == self.v
         def __repr__(self): return f"W({self.v!r})"
 
+    @dataclass
+    class HAny:
+        x: _t.Any
+
     OBS = {
         "deser_A": lambda: deserialize(A, {"some_field": 1, "x": 2}),
         "deser_A_bad": lambda: deserialize(A, {"some_field": -5, "someField": "q"}),
@@ -93,6 +97,11 @@ def world():
         "ser_A": lambda: serialize(A, A(3, None)),
         "dschema_A": lambda: deserialization_schema(A),
         "sschema_A": lambda: serialization_schema(A),
+        # the same values through the untyped / Any path (the method is chosen by the runtime class of the value)
+        "ser_untyped_A": lambda: serialize(A(3, None)),
+        "ser_untyped_W": lambda: serialize(W(5)),
+        "ser_anyfield_A": lambda: serialize(HAny(A(3, None))),
+        "ser_anylist_W": lambda: serialize(List[_t.Any], [W(5), A(1, "s")]),
         "deser_W": lambda: deserialize(W, 5),
         "ser_W": lambda: serialize(W, W(5)),
         "deser_cint": lambda: deserialize(int, 0, schema=schema(min=1)),
@@ -145,6 +154,9 @@ def world():
             ("cache.set_size", ("cache", "set_size"), lambda: cache_mod.set_size(64 if b else 128)),
         ]
     return OBS, ops
+
+
+TYPED_TWIN = {"ser_untyped_A": "ser_A", "ser_untyped_W": "ser_W"}
 
 
 def baseline(ops_fn, i):
@@ -306,6 +318,13 @@ def run(prop, seed, budget, ctx):
                     failures.append({"kind": "P", "mode": "history", "history": since[-12:], "observation": oname, "cached": list(a),
                                      "cold_start": list(f), "k_ok": True, "points": sorted({"/".join(p) for _, _, p in since}),
                                      "why": ["stale-observation-in-a-random-history"]})
+                # the untyped / Any path against the typed one under the configuration of the moment: a memo kept outside the registered caches is
+                # inherited by the forked cold start, so the two would agree on a stale answer - the typed method, rebuilt after every reset, is the reference
+                elif oname in TYPED_TWIN:
+                    t = outcome(OBS[TYPED_TWIN[oname]])
+                    if t[0] == "ok" and a[0] == "ok" and a != t:
+                        failures.append({"kind": "P", "mode": "history", "history": since[-12:], "observation": oname, "cached": list(a), "cold_start": list(t), "k_ok": True,
+                                         "point": ["CacheAwareDict", "__setitem__"], "points": sorted({"/".join(p) for _, _, p in since}), "why": ["untyped-serialization-differs-from-the-typed-one"]})
         if len(since) > 2: distinct.add(("history", h, seed))
     # histories on discriminated unions, against twin classes that only see the final configuration (a cold start in a forked child cannot
     # tell state kept inside the user's own objects - a mapping given to discriminator(...) - from configuration)
